@@ -19,6 +19,17 @@ pub fn tmp_root() -> &'static PathBuf {
 				std::env::temp_dir()
 			}
 		});
+		// scratch directories of processes that no longer exist (killed runs) are removed
+		if let Ok(rd) = std::fs::read_dir(&base) {
+			for e in rd.flatten() {
+				let name = e.file_name().to_string_lossy().to_string();
+				if let Some(pid) = name.strip_prefix("vt-").and_then(|p| p.parse::<u32>().ok()) {
+					if !std::path::Path::new(&format!("/proc/{pid}")).exists() {
+						let _ = std::fs::remove_dir_all(e.path());
+					}
+				}
+			}
+		}
 		let dir = base.join(format!("vt-{}", std::process::id()));
 		std::fs::create_dir_all(&dir).expect("cannot create temp dir");
 		dir
